@@ -4,7 +4,7 @@ from .terms import Ctx, num, show
 from .common import P, F, SIZE, NE, effects, effective_guards, is_zero_term
 from .guards import for_range as raw_for_range
 from .common import for_range_total as for_range
-from .c06 import check_walks, check_transpose, S, ROWS, COLS, NNZ, VAL, RI, CS
+from .c06 import check_walks, check_transpose, rule_construction, rule_lookup, S, ROWS, COLS, NNZ, VAL, RI, CS
 
 LEVEL = "other"
 
@@ -79,6 +79,12 @@ def run(rep, pdb, tier):
             ok = r is not None and acc is not None and acc.init is not None and e.op == "+=" and r[1:5] == (num(0), LEN(V0), False, False) and is_zero_term(ctx.term(acc.init)) and \
                 e.value in (("op", "*", ("idx", V0, r[0]), ("idx", V1, r[0])), ("op", "*", ("idx", V1, r[0]), ("idx", V0, r[0]))) and ctx.term(fn["body"]["expr"]) == e.target
         rep.add("dot", rule, ok, fn["body"], "", where=loc(fn["body"]))
+    # the products walk col_start / row_index / val and scale / transpose are driven by `nonzero`: the invariants that the
+    # constructors and insert establish are part of "for every pattern, however built" (same rule instances as C06)
+    rule_construction(rep, pdb)
+    rule_lookup(rep, pdb)
+    rep.floor("lengths/", 3)
+    rep.floor("lookup/", 3)
     rep.floor("csc-walk/", 6)
     rep.assumptions += ["numerical equality with the dense product and the adjoint identity follow from the two products being the definitional ones; they are not decided as value statements"]
     return {}
